@@ -129,8 +129,8 @@ def affine_cases(ctx, stats):
     rng = ctx.rng
     out = []
     stats["affine"] = 0
-    for _ in range(70 if ctx.quick() else 700):
-        es = specgen.gen_affine_einsum(rng)
+    for _ in range(110 if ctx.quick() else 800):
+        es = specgen.gen_affine_einsum(rng, same_p=0.2, sum_p=0.15)
         mp, kind, syms = specgen.affine_mapping(rng, es, part_p=0.0)
         try:
             spec = runlib.Spec(specgen.yaml_of(es["decl"], [es["expr"]], mp))
